@@ -13,13 +13,13 @@ RULE = ("ledger: Hypothesis-generated broker histories (1-4 contracts: user-defi
         "NLV paths must agree. sparse: same histories, but the broker is valued only at the history's own NLV queries and once at the "
         "end (so a quote move followed directly by a trade is not preceded by a valuation). pair: two accounts (separate exchange and "
         "broker objects) trading the SAME contracts with their own histories, stepped in alternation by a generated schedule; each must "
-        "satisfy the identity on its own. Non-trivial = an add to an existing position under bid<ask, or a flip, or a trade in a fully-paid "
+        "satisfy the identity on its own. wide: 5-12 contracts, 40-150 ops, prices 1e-3..1e6, deposits up to 1e10, valued densely or sparsely. Non-trivial = an add to an existing position under bid<ask, or a flip, or a trade in a fully-paid "
         "contract with multiplier != 1.")
 ASSUMPTIONS = [
     "money identity tolerance abs <= 1e-9 * (deposit + sum|traded notional| + sum|open notional| + |interest|)",
     "post-trade positions are exactly 0 or >= 1e-5 in absolute value (the documented epsilon=1e-7 snap is by design)",
     "interest amounts are taken from Rebalancing.profit_on_idle_cash (their correctness is C06)",
-    "<= 4 contracts, <= 40 ops per history; 0 < bid <= ask; fixed >= 0, proportional >= 0",
+    "<= 4 contracts, <= 40 ops per history (part wide: 5-12 contracts, 40-150 ops, prices 1e-3..1e6, deposits up to 1e10); 0 < bid <= ask; fixed >= 0, proportional >= 0",
 ]
 
 
@@ -139,9 +139,18 @@ def run_pair(case):
     return res
 
 
+def run_wide(case):
+    """Accounts of 5-12 contracts with 40-150 operations, wide price and deposit ranges: dense and sparse valuation."""
+    res = run_sparse(case) if len(case["ops"]) % 2 else run_ledger(case)
+    res.tag("wide:%d-contracts" % min(12, len(case["contracts"])))
+    res.tag("wide")
+    return res
+
+
 PARTS = [
     Part("ledger", strategy=lambda tier: B.histories(tier), run=run_ledger, quick=4000, thorough=240000),
     Part("twin", strategy=lambda tier: B.histories(tier), run=run_twin, quick=1500, thorough=60000),
     Part("sparse", strategy=lambda tier: B.histories(tier), run=run_sparse, quick=4000, thorough=240000),
     Part("pair", strategy=lambda tier: pair_cases(tier), run=run_pair, quick=2000, thorough=80000),
+    Part("wide", strategy=lambda tier: B.histories(tier, wide=True), run=run_wide, quick=600, thorough=40000),
 ]
